@@ -20,6 +20,15 @@ Lemma erase_f_fields : forall p0 n, flag_locked (erase_f p0 n) = flag_locked n /
                                    /\ n_flag (erase_f p0 n) = n_flag n /\ n_kind (erase_f p0 n) = n_kind n.
 Proof. intros. unfold erase_f. destruct (is_prefix (n_path n) p0 || is_prefix p0 (n_path n)); repeat split; reflexivity. Qed.
 
+Lemma skel_filter_out : forall p (h : node -> node) (l : list node),
+  (forall y, n_path (h y) = n_path y) -> (forall y, is_prefix p (n_path y) = false -> info (h y) = info y) ->
+  filter (fun pi : path * ninfo => negb (is_prefix p (fst pi))) (map (fun n => (n_path (h n), info (h n))) l)
+  = filter (fun pi : path * ninfo => negb (is_prefix p (fst pi))) (map (fun n => (n_path n, info n)) l).
+Proof.
+  intros p h l Hp Hi. induction l as [|y l IH]; [reflexivity|]. cbn [map filter fst]. rewrite Hp.
+  destruct (is_prefix p (n_path y)) eqn:Py; cbn [negb]; [exact IH|]. rewrite IH, (Hi y Py). reflexivity.
+Qed.
+
 (* a state s1 that differs from a good state s only in node metadata / entries at or below p, followed by erasing around p0
    where everything comparable with p is comparable with p0 *)
 Lemma erase_after_change_good : forall U s s1 p p0 (g : node -> node),
@@ -40,11 +49,12 @@ Proof.
   assert (K : forall n, n_path (f n) = n_path n /\ flag_locked (f n) = flag_locked n /\ n_parents (f n) = n_parents n
                         /\ n_flag (f n) = n_flag n /\ n_kind (f n) = n_kind n).
   { intros n. unfold f. destruct (erase_f_keeps p0 (g n)) as [A _], (erase_f_fields p0 (g n)) as [B [C [D D']]].
-    destruct (Hg n) as [G1 [G2 [G3 [G4 [G5 G6]]]]]. unfold flag_locked in *. repeat split; congruence. }
+    destruct (Hg n) as [G1 [G2 [G3 [G4 [G5 G6]]]]]. unfold flag_locked in *.
+    split; [congruence|]. split; [rewrite B, G4; reflexivity|]. split; [congruence|]. split; congruence. }
   assert (TD1 : all_td (upd_nodes s1 (erase_f p0))).
   { intros n' H. destruct (In' n' H) as [n [Hn0 ->]]. destruct (K n) as [_ [_ [_ [_ Kk]]]]. rewrite Kk. now destruct (g_td U s G n Hn0). }
   constructor.
-  - rewrite E. rewrite map_map. erewrite map_ext; [apply (g_nodup U s G)|]. intros n. apply K.
+  - unfold upd_nodes. cbn [nodes]. rewrite Hn, !map_map. erewrite map_ext; [apply (g_nodup U s G)|]. intros n. apply (K n).
   - intros n' H. destruct (In' n' H) as [n [Hn0 ->]]. destruct (K n) as [_ [_ [_ [Kf Kk]]]]. rewrite Kf, Kk. now apply (g_td U s G).
   - intros n' x' H H' L P. destruct (In' n' H) as [n [Hn0 ->]], (In' x' H') as [x [Hx0 ->]].
     destruct (K n) as [Kp [Kl _]], (K x) as [Kp' [Kl' _]]. rewrite Kl in L. rewrite Kl'. rewrite Kp, Kp' in P. eapply (g_lc U s G n x); eauto.
@@ -59,11 +69,10 @@ Proof.
     apply orb_false_iff in Er. destruct Er as [E1 E2]. destruct (Hcmp (n_path n) E1 E2) as [C1 C2].
     rewrite Gc in He. eapply entry_ok_view; [exact Gp| |apply (g_inv U s G n e Hn0 He)].
     apply (view_irrelevant s _ (n_path n) p C1 C2); [| |eapply good_all_td; eauto|exact TD1].
-    + unfold skel. rewrite E. rewrite map_map.
-      induction (nodes s) as [|y l IH]; [reflexivity|]. cbn [map filter].
-      destruct (K y) as [Kp _]. unfold keep_n at 1 3. cbn [fst]. rewrite Kp.
-      destruct (is_prefix p (n_path y)) eqn:Py; cbn [negb]; [exact IH|].
-      rewrite IH. f_equal. unfold f. rewrite (Hout y Py). destruct (erase_f_keeps p0 y) as [A B]. now rewrite A, B.
+    + unfold skel, upd_nodes. cbn [nodes]. rewrite Hn, !map_map.
+      apply (skel_filter_out p (fun x => erase_f p0 (g x))).
+      * intros y. apply (K y).
+      * intros y Py. rewrite (Hout y Py). apply erase_f_keeps.
     + exact Hl.
 Qed.
 
